@@ -66,3 +66,20 @@ Proof.
   - intros [(k & <- & Hk) Hs]. apply in_seq in Hk. split; [lia | exact Hs].
   - intros [Hr Hs]. split; [|exact Hs]. exists (Z.to_nat a). split; [lia | apply in_seq; lia].
 Qed.
+
+(* afterErr: the set the compiler adds for an `error` terminal denotes follow(error); on a plain grammar its
+   proved evaluation is exactly the terminals that can follow `error`, and recovery is on iff there is one *)
+Theorem after_err_exact T rules tb err :
+  (forall r, In r rules -> T <= fst r) -> all_tables T rules = Some tb ->
+  (forall a, set_den T rules (after_err_set err) a <-> follow_in T rules err a) /\
+  (forall a, In a (eval_set T tb (after_err_set err)) <-> (0 <= a < T /\ follow_in T rules err a)) /\
+  (is_recovering (eval_set T tb (after_err_set err)) = true <-> exists a, 0 <= a < T /\ follow_in T rules err a).
+Proof.
+  intros Hl Ht.
+  assert (H2 : forall a, In a (eval_set T tb (after_err_set err)) <-> (0 <= a < T /\ follow_in T rules err a)).
+  { intro a. exact (eval_set_exact T rules tb Hl Ht (after_err_set err) eq_refl a). }
+  split; [intro a; reflexivity|]. split; [exact H2|].
+  destruct (eval_set T tb (after_err_set err)) as [|a l] eqn:E; cbn [is_recovering].
+  - split; [discriminate|]. intros [a Ha]. apply H2 in Ha. destruct Ha.
+  - split; [|reflexivity]. intros _. exists a. apply H2. now left.
+Qed.
